@@ -41,22 +41,39 @@ def universes(tier):
     us.append(("hand (converse)", pf.dedupe(pf.HAND), {}, 6))
     us.append(("size ladder (fwd+converse)", pf.dedupe(pf.LARGE), {}, 3))
     us.append(("corpus expected family", corpus_family(None if tier == "thorough" else 150), {}, 40))
+    # rows of an earlier result table fed in again: the tool's own output columns are pre-populated
+    stale = {"solved": True, "solved_by": "mcs-based", "issue": "stale issue", "confidence": 0.1, "rules": ["stale"],
+             "input_reaction": "C>>C"}
+    bal = [r for r in pf.dedupe(pf.rxn_universe(pf.A01[:6], 2) + pf.SPECIAL + pf.HAND) if oracle.balanced(r) and pf.in_domain(r)]
+    pre = []
+    for i, r in enumerate(bal):
+        row = {"reaction": r}
+        row.update(stale)
+        if i % 3 == 1:
+            row["solved_by"] = "rule-based"
+        if i % 3 == 2:
+            row = {"reaction": r, "solved_by": "mcs-based"}
+        pre.append(row)
+        if i % 4 == 0:
+            pre.append({"reaction": r})   # a fresh row in the same batch
+    us.append(("pre-populated output columns", pre, {}, 5))
     return us
 
 
 def run(tier, seed):
     us = universes(tier)
     res = pf.drive(PROPERTY, us, seed)
-    nbal = sum(1 for _, rx, _, _ in us for r in rx if oracle.balanced(r))
+    nbal = sum(1 for _, rx, _, _ in us for r in rx if oracle.balanced(r if isinstance(r, str) else r["reaction"]))
     res.coverage["balanced_inputs"] = nbal
     res.coverage["rule"] = (
         "every curated balanced corpus reaction (closed-shell, balanced by the independent "
         "model) with its reversal, doubling and union with its neighbour (quick: every k-th "
         "corpus row, thorough: all); every member of Rxn(A01,2), of the ion/heavy-element "
-        "alphabet and of the hand-built list for the converse.  Non-trivial = distinct inputs, "
+        "alphabet and of the hand-built list for the converse; balanced reactions as dict rows whose output columns are "
+        "pre-populated (a result table fed in again), mixed with fresh rows.  Non-trivial = distinct inputs, "
         "counted separately for balanced and unbalanced ones."
     )
-    res.coverage["samples"] = [us[0][1][0], us[1][1][3], us[3][1][0][:200]]
+    res.coverage["samples"] = [us[0][1][0], us[1][1][3], us[3][1][0][:200], us[-1][1][0]]
     res.assumptions = ["balance is decided by the independent composition model (RDKit)",
                        "closed-shell domain: inputs with radical atoms ([O], [H] placeholders) are filtered"]
     return res
